@@ -127,13 +127,14 @@ def _handle_desc(job, public=False):
         except Exception as e:  # noqa
             d["sp"] = d["csp"] = "!" + type(e).__name__
         return d
-    if not getattr(job, "_statepoint_requires_init", True):
+    csp = getattr(job, "_cached_statepoint", None)
+    if not getattr(job, "_statepoint_requires_init", True) and hasattr(job, "_statepoint"):
         d["sp"] = job._statepoint()
-    elif job._cached_statepoint is not None:
-        d["sp"] = copy.deepcopy(dict(job._cached_statepoint))
+    elif csp is not None:
+        d["sp"] = copy.deepcopy(dict(csp))
     else:
         d["sp"] = None
-    d["csp"] = copy.deepcopy(dict(job._cached_statepoint)) if job._cached_statepoint is not None else d["sp"]
+    d["csp"] = copy.deepcopy(dict(csp)) if csp is not None else d["sp"]
     return d
 
 
@@ -463,7 +464,7 @@ def _edge_worker(chunk):
         r = replay_behaviour(uni, projects, [nodes[n] for n in path], judge, base)
         on_edge = r["mismatch"] is not None and r["mismatch"][0] == len(path) - 2
         verd = [x for x in r["verdicts"] if x[0] == len(path) - 2]      # only the edge under test (prefix edges are tested on their own)
-        out.append((len(path) - 1, r["mismatch"] if on_edge else None, verd, W._script(nodes, path) if (on_edge or verd) else None,
+        out.append((len(path) - 1, r["mismatch"] if on_edge else None, verd, W._script(nodes, path) if (on_edge or verd or len(out) < 2) else None,
                     (nodes[v]["last"]["op"], nodes[v]["last"]["res"])))
     return out
 
@@ -555,7 +556,9 @@ def _account(ctx, pid, cfg, flat, total, nnodes):
         _report(ctx, pid, cfg, mismatch, verd, script)
     ctx.cov.setdefault("edge_cover", []).append({"config": cfg.name, "edges_in_graph": total, "edges_replayed": len(flat), "states": nnodes,
                                                  "exhaustive": len(flat) == total, "distinct_op_outcomes": len(ops)})
-    ex = next((s for (_, m, v, s, _) in flat if s), None)
+    ex = sorted((s for (_, m, v, s, _) in flat if s and not m and not v), key=lambda sc: -len(sc))
+    if ex:
+        ctx.sample({"config": cfg.name, "kind": "edge of the TLC state graph replayed from the initial state", "script": ex[0]})
 
 
 def _report(ctx, pid, cfg, mismatch, verdicts, script):
@@ -663,8 +666,9 @@ def _enc_obs(w, uni, projects):
         inv = {v(w.stray_base): k for k, v in W.STRAY_NAME.items()}
         if any(s_ not in inv for s_ in pr["strays"]):
             return None
-        mem = [dict(uni.by_id[i]) for i in w.proj[p]._sp_cache if i in uni.by_id]
-        if len(mem) != len(w.proj[p]._sp_cache):
+        spc = getattr(w.proj[p], "_sp_cache", {})
+        mem = [dict(uni.by_id[i]) for i in spc if i in uni.by_id]
+        if len(mem) != len(spc):
             return None
         obs[p] = {"ws": wsl, "cacheEx": pr["cache"] is not None, "cache": cache, "mem": mem, "strays": sorted(inv[s_] for s_ in pr["strays"])}
     return obs
